@@ -976,6 +976,12 @@ def _judge_one(spec, world, ex, ctx, x, o, value):
                 jq = Int("jq")
                 extra = [Clause("functional-result/len", value.t.n == fv.n, spec.props),
                          Clause("functional-result/elements", ForAll([jq], Implies(And(0 <= jq, jq < fv.n), value.t.a[jq] == fv.a[jq])), spec.props)]
+            elif o.res == "tuple":
+                ok = value.k == "tuple" and len(value.t) == len(fv) and all(a.k == b.k or {a.k, b.k} <= {"str", "pystr"} for a, b in zip(value.t, fv))
+                if not ok:
+                    extra = [Clause("functional-result/shape", BoolVal(False), spec.props)]
+                else:
+                    extra = [Clause("functional-result/%d" % k_, a.t == b.t, spec.props) for k_, (a, b) in enumerate(zip(value.t, fv))]
             else:
                 extra = [Clause("functional-result", value.t == fv, spec.props)]
         for c in extra + clauses(o.post(ctx, p.S, value), props=spec.props):
